@@ -598,28 +598,88 @@ def m_iter_reduce(it, st, fr, t, args, ga):
     if ety.get('k') not in ('int', 'uint'):
         raise I.InterpError('reduce over non-integer elements')
     lo, hi = I.INT_RANGES[ety['n']]
-    probe = st.fork()
-    x = probe.ctx.sym_range(probe.fresh_name('reduce.older'), lo, hi, integer=True)
-    y = probe.ctx.sym_range(probe.fresh_name('reduce.newer'), lo, hi, integer=True)
     by_value = bool(c.extra.get('by_value')) if c.extra else False
-    ax = I.Num(x, ety['n']) if by_value else I.RefV(probe.new_cell(I.Num(x, ety['n'])))
-    ay = I.Num(y, ety['n']) if by_value else I.RefV(probe.new_cell(I.Num(y, ety['n'])))
-    r = it.call_closure(probe, clo, [ax, ay])
-    if isinstance(r, I.RefV):
-        r = it.deref(probe, r)
-    if not isinstance(r, I.Num):
-        raise I.InterpError('reduce closure returns %r' % (r,))
-    kind = None
-    if r.term == y:
-        kind = 'last'
-    elif r.term == x:
-        kind = 'first'
-    elif r.term == t_max(x, y, probe.ctx):
-        kind = 'max'
-    elif r.term == t_min(x, y, probe.ctx):
-        kind = 'min'
-    if kind is None:
+
+    def classify(state):
+        probe = state.fork()
+        x = probe.ctx.sym_range(probe.fresh_name('reduce.older'), lo, hi, integer=True)
+        y = probe.ctx.sym_range(probe.fresh_name('reduce.newer'), lo, hi, integer=True)
+        ax = I.Num(x, ety['n']) if by_value else I.RefV(probe.new_cell(I.Num(x, ety['n'])))
+        ay = I.Num(y, ety['n']) if by_value else I.RefV(probe.new_cell(I.Num(y, ety['n'])))
+        r = it.call_closure(probe, clo, [ax, ay])
+        if isinstance(r, I.RefV):
+            r = it.deref(probe, r)
+        if not isinstance(r, I.Num):
+            raise I.InterpError('reduce closure returns %r' % (r,))
+        if r.term == y:
+            return 'last'
+        if r.term == x:
+            return 'first'
+        if r.term == t_max(x, y, probe.ctx):
+            return 'max'
+        if r.term == t_min(x, y, probe.ctx):
+            return 'min'
         raise I.InterpError('reduce closure is not a selection of its arguments: %r' % (r.term,))
+
+    def result(state, kind):
+        outs_ = []
+        for cond, nonempty in ((cmp_term('Gt', c.len, 0), True), (cmp_term('Eq', c.len, 0), False)):
+            s2 = state.fork()
+            if not s2.ctx.assume(cond, True):
+                continue
+            if not nonempty:
+                outs_.append((s2, none()))
+                continue
+            tm = elem_term(c.term, ZERO, c.len, s2.ctx, ety) if kind == 'first' else select_term(kind, c.term, c.len, s2.ctx, ety)
+            v = I.Num(tm, ety['n'])
+            outs_.append((s2, some(v if by_value else I.RefV(s2.new_cell(v)))))
+        return outs_
+
+    try:
+        kind = classify(st)
+    except I.InterpError as e:
+        if 'fork' not in str(e) and 'variant' not in str(e):
+            raise
+        # the selection depends on a mode the state leaves open (a small unit-only enum the closure matches on): one case
+        # per variant
+        enums = {}
+
+        def walk(v, depth=0):
+            if depth > 4:
+                return
+            if isinstance(v, I.EnumV) and v.variant is None and v.name and (v.possible is None or len(v.possible) <= 4):
+                enums.setdefault(v.name, v)
+            elif isinstance(v, I.RefV):
+                try:
+                    walk(it.deref(st, v), depth + 1)
+                except I.InterpError:
+                    pass
+            elif isinstance(v, I.StructV):
+                for f_ in v.fields:
+                    walk(f_, depth + 1)
+            elif isinstance(v, I.ClosureV):
+                for f_ in v.caps:
+                    walk(f_, depth + 1)
+        walk(clo)
+        if not enums or len(enums) > 3:
+            raise
+        import itertools
+        doms = []
+        for d in enums.values():
+            adt = it.facts.adts.get(d.path)
+            poss = d.possible if d.possible is not None else (list(range(len(adt['variants']))) if adt else None)
+            if not poss:
+                raise
+            doms.append([(d, vi) for vi in poss])
+        if len(list(itertools.product(*doms))) > 16:
+            raise
+        states = []
+        for combo in itertools.product(*doms):
+            s2 = st.fork()
+            for d, vi in combo:
+                it.refine_enum(s2, d, vi)
+            states += result(s2, classify(s2))
+        return ('states', states)
 
     def some_(it2, s2, f2):
         if kind == 'first':
